@@ -463,3 +463,63 @@ def _discr_edges(fn, local, ok_idx):
 def ok_dominates(fn, call, bb):
     """True if block bb is reachable only through the success edge of `call`'s result test."""
     return any(ok != err and fn.edge_dominates(b, ok, bb) for b, ok, err in try_edges(fn, call))
+
+
+# --------------------------------------------------------------------------- interprocedural value sources
+import re as _re
+
+
+def sources_of(prog, fn, operand, depth=4, _seen=None):
+    """Where a value comes from across calls: returns a set of (function path, symbolic expression) pairs. A bare parameter
+    `argN` is traced to the corresponding argument at every call site of the function (closures: to the captured upvar);
+    `argN.<field>` of a locally constructed struct is traced to the operand stored into that field where the struct is built."""
+    _seen = _seen or set()
+    ex = vexpr(fn, operand) if isinstance(operand, dict) else operand
+    key = (fn.path, ex)
+    if depth <= 0 or key in _seen:
+        return {(fn.path, ex)}
+    _seen = _seen | {key}
+    m = _re.match(r'^arg(\d+)((?:\.[\w#]+)*)$', ex)
+    if not m:
+        return {(fn.path, ex)}
+    n = int(m.group(1))
+    fields = [x for x in m.group(2).split('.') if x]
+    out = set()
+    if fn.kind == 'closure' and n == 1 and fields and fields[0].isdigit():
+        # captured variable: operand stored into the closure where it is built
+        for g in prog.fns.values():
+            if g.root != fn.root and g.path != fn.root:
+                continue
+            for bb, j, lhs, rv, s in g.assigns():
+                if rv['k'] == 'agg' and rv.get('ak') == 'closure' and rv.get('def') == fn.path:
+                    idx = int(fields[0])
+                    if idx < len(rv['ops']):
+                        sub = sources_of(prog, g, rv['ops'][idx], depth - 1, _seen)
+                        if len(fields) > 1:
+                            sub = {(p, e + '.' + '.'.join(fields[1:])) for p, e in sub}
+                        out |= sub
+        return out or {(fn.path, ex)}
+    if not fields:
+        callers = prog.callers_of(fn.path)
+        callers = [c for c in callers if c.resolved == fn.path or c.callee == fn.path]
+        if not callers:
+            return {(fn.path, ex)}
+        for c in callers:
+            if n - 1 < len(c.args):
+                out |= sources_of(prog, c.fn, c.args[n - 1], depth - 1, _seen)
+        return out or {(fn.path, ex)}
+    # field of a parameter: find where that struct type is built
+    ty = fn.local_ty(n)
+    adt = _re.sub(r"^&(?:'\w+ )?(?:mut )?", '', ty)
+    adt = _re.sub(r'<.*$', '', adt)
+    hits = 0
+    for a in aggregates(prog, adt):
+        names = a['rv'].get('fn', [])
+        if fields[0] in names:
+            hits += 1
+            op = a['rv']['ops'][names.index(fields[0])]
+            sub = sources_of(prog, a['fn'], op, depth - 1, _seen)
+            if len(fields) > 1:
+                sub = {(p, e + '.' + '.'.join(fields[1:])) for p, e in sub}
+            out |= sub
+    return out or {(fn.path, ex)}
